@@ -5,6 +5,7 @@
 package xt
 
 import (
+	"hash/fnv"
 	"bytes"
 	"encoding/xml"
 	"fmt"
@@ -150,17 +151,42 @@ func (n *Node) tokens(out *[]xml.Token) {
 }
 
 type sliceReader struct {
-	toks []xml.Token
-	i    int
+	toks     []xml.Token
+	i        int
+	volatile bool
+	last     []byte
 }
 
+// Token returns a copy of the next token.  When the reader is volatile the
+// bytes of a character-data token are only valid until the next call, as with
+// an *xml.Decoder (they are overwritten then): code that keeps tokens must copy
+// them.
 func (r *sliceReader) Token() (xml.Token, error) {
+	for k := range r.last {
+		r.last[k] = '#'
+	}
+	r.last = nil
 	if r.i >= len(r.toks) {
 		return nil, io.EOF
 	}
 	t := r.toks[r.i]
 	r.i++
+	if cd, ok := t.(xml.CharData); ok && r.volatile {
+		r.last = append([]byte(nil), cd...)
+		return xml.CharData(r.last), nil
+	}
 	return xml.CopyToken(t), nil
+}
+
+// volatileFor decides from the tokens themselves (so that a case is
+// reproducible) whether their reader gets a decoder's buffer discipline:
+// about one in two.
+func volatileFor(toks []xml.Token) bool {
+	h := fnv.New32a()
+	for _, t := range toks {
+		fmt.Fprintf(h, "%v|", t)
+	}
+	return h.Sum32()%2 == 0
 }
 
 // rawReader hands out the stored tokens themselves (no copies), as a reader an
@@ -183,7 +209,10 @@ func (r *rawReader) Token() (xml.Token, error) {
 func RawTokenReader(t []xml.Token) xml.TokenReader { return &rawReader{toks: t} }
 
 // Reader returns a fresh xml.TokenReader over the element.
-func (n *Node) Reader() xml.TokenReader { return &sliceReader{toks: n.Tokens()} }
+func (n *Node) Reader() xml.TokenReader {
+	t := n.Tokens()
+	return &sliceReader{toks: t, volatile: volatileFor(t)}
+}
 
 // InnerReader returns a token reader over the children only.
 func (n *Node) InnerReader() xml.TokenReader {
@@ -191,11 +220,13 @@ func (n *Node) InnerReader() xml.TokenReader {
 	if len(t) >= 2 {
 		t = t[1 : len(t)-1]
 	}
-	return &sliceReader{toks: t}
+	return &sliceReader{toks: t, volatile: volatileFor(t)}
 }
 
 // TokenSliceReader reads from a token slice.
-func TokenSliceReader(t []xml.Token) xml.TokenReader { return &sliceReader{toks: t} }
+func TokenSliceReader(t []xml.Token) xml.TokenReader {
+	return &sliceReader{toks: t, volatile: volatileFor(t)}
+}
 
 // Bytes serialises n with explicit namespace declarations on every element
 // whose namespace differs from its parent's (parentNS is the namespace in
